@@ -163,80 +163,6 @@ theorem win_push_comps_pf (a p : Bytes) (ha : pfxStart a = false) (hane : a ≠ 
     rw [win_comps_pf _ hpf, win_comps_pf a ha, win_comps_pf p hp, List.append_assoc, List.singleton_append]
     exact gen_append_comps (wsep true) a p BSLASH (by decide) hane hrel'
 
-/-! ### C04 for prefix-free Windows bases -/
-
-/-- Windows, prefix-free base (not the K3 shape): a successful checked push yields exactly the
-base's components followed by the argument's (minus a leading `.`), and the added components
-contain no prefix, no root and never climb. -/
-theorem win_checked_keeps_base_pf (cur p r : Bytes) (hcur : pfxStart cur = false) (hne : cur ≠ [])
-    (h : pushChecked .windows cur p = .ok r) :
-    comps .windows r = comps .windows cur ++ dropLeadingCur (comps .windows p) ∧
-    C04.allPlain .windows (dropLeadingCur (comps .windows p)) ∧
-    C04.neverClimbs 0 (dropLeadingCur (comps .windows p)) := by
-  obtain ⟨hacc, hr⟩ := (C04.checked_accepts_iff .windows cur p r).mp h
-  refine ⟨?_, C04.dropLeadingCur_sublist_props .windows _ 0 hacc⟩
-  subst hr
-  by_cases hp : p = []
-  · subst hp
-    have : comps .windows [] = [] := by rw [C03.comps_new_closed]; decide
-    simp [push, windowsPush, this, dropLeadingCur]
-  · -- an accepted argument has no prefix and no root
-    have hnopre : JoinRules.prefixOf p = none := by
-      cases hpo : JoinRules.prefixOf p with
-      | none => rfl
-      | some q =>
-        exfalso
-        have hw : wPrefix p = some q := by rw [C08.wPrefix_eq]; exact hpo
-        have : Comp.pfx q ∈ comps .windows p := by
-          rw [C02.win_decomp]
-          unfold WinGrammar.decomp
-          unfold JoinRules.prefixOf at hpo
-          cases hpc : parsePrefixComp p with
-          | none => simp [hpc] at hpo
-          | some x =>
-            obtain ⟨q', rest⟩ := x
-            simp only [hpc, Option.map_some, Option.some.injEq] at hpo
-            subst hpo; simp
-        have := hacc.1 _ this
-        simp [Comp.isPfx] at this
-    have hroot : hasRoot .windows p = false := by
-      cases hr : hasRoot .windows p with
-      | false => rfl
-      | true =>
-        exfalso
-        rw [C02.hasRoot_eq] at hr
-        have hd : WinGrammar.decomp p = comps .windows p := (C02.win_decomp p).symm
-        rw [hd] at hr
-        cases hc : comps .windows p with
-        | nil => rw [hc] at hr; simp [C02.hasRootOf] at hr
-        | cons c rest =>
-          rw [hc] at hr
-          cases c with
-          | root => exact absurd rfl (hacc.1 .root (by rw [hc]; simp)).2.1
-          | pfx q => have := hacc.1 (.pfx q) (by rw [hc]; simp); simp [Comp.isPfx] at this
-          | _ => simp [C02.hasRootOf] at hr
-    have hrel : JoinRules.startsWithSep p = false := by
-      rw [← C08.hasRoot_no_prefix p (by rw [hnopre]; rfl)]; exact hroot
-    -- no prefix and no leading separator: p is prefix-free unless it starts like `X:`, which
-    -- would be a disk prefix
-    have hpp : pfxStart p = false := by
-      cases hps : pfxStart p with
-      | false => rfl
-      | true =>
-        exfalso
-        match p, hps with
-        | a :: c :: rest, hps =>
-          simp only [pfxStart, Bool.or_eq_true, Bool.and_eq_true, decide_eq_true_eq] at hps
-          rcases hps with ⟨ha, _⟩ | ⟨ha, hc⟩
-          · simp [JoinRules.startsWithSep, ha] at hrel
-          · subst hc
-            have : parsePrefix (a :: COLON :: rest) = some (.disk (toAsciiUpper a), rest) :=
-              (C02b.disk_iff _ rest _).mpr ⟨a, rfl, ha, rfl⟩
-            unfold JoinRules.prefixOf parsePrefixComp at hnopre
-            rw [this] at hnopre
-            simp at hnopre
-    exact (win_push_comps_pf cur p hcur hne hp hpp hrel).2
-
 /-! ### Unix → Windows -/
 
 /-- a name that is a good single component in both encodings: non-empty, not `.` / `..`, no
